@@ -115,6 +115,49 @@ def flipped_source(src: str, fnode: ast.AST) -> str | None:
     return "".join(lines[: first - 1]) + new + "".join(lines[target.end_lineno:])
 
 
+def named_cond_source(src: str, fnode: ast.AST) -> str | None:
+    """src with every refusing `if <comparison>: ... raise` of fnode rewritten as
+    `cond_k = <comparison>` / `if cond_k: ...`: the same refusal behind a name."""
+    mod = ast.parse(src)
+    target = None
+    for n in ast.walk(mod):
+        if isinstance(n, type(fnode)) and n.lineno == fnode.lineno and n.name == fnode.name:
+            target = n
+    if target is None:
+        return None
+    k = 0
+
+    def rewrite(body: list[ast.stmt]) -> list[ast.stmt]:
+        nonlocal k
+        out = []
+        for st in body:
+            for f in ("body", "orelse", "finalbody"):
+                if hasattr(st, f) and isinstance(getattr(st, f), list) and not isinstance(st, (ast.FunctionDef, ast.AsyncFunctionDef, ast.ClassDef)):
+                    setattr(st, f, rewrite(getattr(st, f)))
+            if isinstance(st, ast.Try):
+                for h in st.handlers:
+                    h.body = rewrite(h.body)
+            if isinstance(st, ast.If) and isinstance(st.test, ast.Compare) and not st.orelse and st.body and isinstance(st.body[-1], ast.Raise) \
+                    and not any(isinstance(x, ast.NamedExpr) for x in ast.walk(st.test)):
+                k += 1
+                name = f"cond_{k}"
+                out.append(ast.Assign(targets=[ast.Name(id=name, ctx=ast.Store())], value=st.test, lineno=st.lineno))
+                st.test = ast.Name(id=name, ctx=ast.Load())
+            out.append(st)
+        return out
+
+    target.body = rewrite(target.body)
+    if not k:
+        return None
+    ast.fix_missing_locations(target)
+    text = ast.unparse(target)
+    first = min([target.lineno] + [d.lineno for d in target.decorator_list])
+    indent = " " * target.col_offset
+    lines = src.splitlines(keepends=True)
+    new = "".join(indent + l + "\n" for l in text.splitlines())
+    return "".join(lines[: first - 1]) + new + "".join(lines[target.end_lineno:])
+
+
 def _own_args(fnode):
     a = fnode.args
     return set(a.posonlyargs + a.args + a.kwonlyargs + ([a.vararg] if a.vararg else []) + ([a.kwarg] if a.kwarg else []))
@@ -122,7 +165,7 @@ def _own_args(fnode):
 
 _BASE = None
 _BASE_REPORTS = None
-MODE = "flip" if "--flip" in sys.argv else "rename"
+MODE = "flip" if "--flip" in sys.argv else "name" if "--name-cond" in sys.argv else "rename"
 
 
 def _init():
@@ -135,7 +178,7 @@ def work(job):
     modname, qual = job
     mi = _BASE.module(modname)
     fi = _BASE.prog.functions[qual]
-    new = (flipped_source if MODE == "flip" else renamed_source)(mi.source, fi.node)
+    new = {"flip": flipped_source, "name": named_cond_source, "rename": renamed_source}[MODE](mi.source, fi.node)
     if new is None:
         return qual, None
     try:
@@ -178,7 +221,7 @@ def main():
         for qual, got in pool.imap_unordered(work, jobs, chunksize=4):
             if got:
                 bad += 1
-                print(f"FALSE ALARM {'flipping the comparisons' if MODE == 'flip' else 'renaming the locals'} of {qual}:")
+                print(f"FALSE ALARM {'flipping the comparisons' if MODE == 'flip' else 'naming the refusing conditions' if MODE == 'name' else 'renaming the locals'} of {qual}:")
                 for g in got[:6]:
                     print("     ", g)
                 sys.stdout.flush()
